@@ -93,6 +93,7 @@ Keep1 == {"sum", "mean", "amin", "amax", "min", "max", "abs", "absolute", "fabs"
 Keep2 == {"add", "subtract", "maximum", "minimum", "hypot", "fmax", "fmin"}                        \* two operands, result in the first one's unit
 KeepSeq == {"concatenate", "stack", "hstack", "vstack"}                                            \* a sequence of Arrays
 Pred1 == {"isfinite", "isnan", "isinf", "logical_not", "signbit"}
+Index1 == {"argsort", "argmax", "argmin", "count_nonzero"}        \* positions and counts (documented: np.argmax(density); used by sortby): pure numbers
 Pred2 == {"less", "less_equal", "greater", "greater_equal", "equal", "not_equal"}
 Trans1 == {"sqrt", "square", "cbrt", "reciprocal", "power_int2", "power_nd2", "power_nd3", "power_q2", "power_a3", "power_s2"}        \* np.power with a Python int / 0-d ndarray exponent
 Trans2 == {"multiply", "divide", "true_divide"}
@@ -100,6 +101,7 @@ NpOutcome(c) ==
   LET u == PU(c.lu)  v == IF c.rk \in {"arr", "qty"} THEN PU(c.ru) ELSE Unit0 IN
   CASE c.f \in Keep1 -> [raises |-> FALSE, unit |-> Sparse(u), bool |-> FALSE]
     [] c.f \in Pred1 -> [raises |-> FALSE, unit |-> Sparse(Unit0), bool |-> TRUE]
+    [] c.f \in Index1 -> [raises |-> FALSE, unit |-> Sparse(Unit0), bool |-> FALSE]
     [] c.f = "sqrt" -> IF URootOk(u, 2) THEN [raises |-> FALSE, unit |-> Sparse(URoot(u, 2)), bool |-> FALSE] ELSE [raises |-> FALSE, unit |-> <<"fractional">>, bool |-> FALSE]
     [] c.f = "cbrt" -> IF URootOk(u, 3) THEN [raises |-> FALSE, unit |-> Sparse(URoot(u, 3)), bool |-> FALSE] ELSE [raises |-> FALSE, unit |-> <<"fractional">>, bool |-> FALSE]
     [] c.f \in {"square", "power_int2", "power_nd2", "power_q2", "power_s2"} -> [raises |-> FALSE, unit |-> Sparse(UPow(u, 2)), bool |-> FALSE]
